@@ -172,3 +172,17 @@ Definition check_c19_real (c : c19_real) : bool * bool :=
   (obs_eqb false (model_obs (r_keep c) (r_tc c)) (r_obs c),
    P_C19 false (r_keep c) (r_tc c) (r_obs c) && r_children_dead c &&
    N.leb (r_wall_ms c) (1000 * waits + slack_ms)).
+
+(** ** Case run as part of [exactly suite ROOT]: the reporter shows the status of each case only, not
+    the failing phase / instruction.  The timeouts handed to the processes are observed as in
+    [check_c19]; the failing step is taken from the model when (and only when) the observed STATUS is
+    the model's, so that the reference semantics can be evaluated on the observed processes. *)
+Definition status_of (f : option failure3) : option fail_status := option_map snd f.
+Definition check_c19_status (c : c19_case) : bool * bool :=
+  let m := model_obs (k_keep c) (k_tc c) in
+  let o := k_obs c in
+  let same_status := option_eqb fail_status_eqb (status_of (o_failure m)) (status_of (o_failure o)) in
+  (list_eqb (ocall_eqb true) (o_calls m) (o_calls o) && same_status &&
+   Bool.eqb (o_sandbox_left m) (o_sandbox_left o),
+   P_C19 true (k_keep c) (k_tc c)
+         (C19Obs (o_calls o) (if same_status then o_failure m else o_failure o) (o_sandbox_left o))).
